@@ -22,7 +22,9 @@ Suppressions:
     too-many-positional-arguments: Factory function mirrors IgnoreDirective fields
 """
 
+import io
 import re
+import tokenize
 from pathlib import Path
 
 from src.linters.lazy_ignores.types import IgnoreDirective, IgnoreType
@@ -162,3 +164,28 @@ def create_directive_no_rules(
         IgnoreDirective with empty rule_ids tuple
     """
     return create_directive(match, ignore_type, line_num, file_path, rule_ids=())
+
+
+def multiline_string_interior(code: str) -> set[int] | None:
+    """Return the lines that lie inside a multi-line string literal, after its first line.
+
+    Uses the tokenizer, so triple quotes inside a comment or inside another string do not open a
+    docstring. Returns None when the source cannot be tokenized (or uses bare carriage returns,
+    which the tokenizer counts as line ends and the line scan does not).
+    """
+    if re.search(r"\r(?!\n)", code):
+        return None
+    interior: set[int] = set()
+    fstring_starts: list[int] = []
+    try:
+        for tok in tokenize.generate_tokens(io.StringIO(code).readline):
+            name = tokenize.tok_name.get(tok.type, "")
+            if name == "FSTRING_START":
+                fstring_starts.append(tok.start[0])
+            elif name == "FSTRING_END" and fstring_starts:
+                interior.update(range(fstring_starts.pop() + 1, tok.end[0] + 1))
+            elif tok.type == tokenize.STRING and tok.end[0] > tok.start[0]:
+                interior.update(range(tok.start[0] + 1, tok.end[0] + 1))
+    except (tokenize.TokenError, SyntaxError, ValueError):
+        return None
+    return interior
